@@ -1,0 +1,20 @@
+//go:build verif
+
+// C32: contracts for the deductive verifier in /verif (govc). Only compiled with -tags verif.
+
+package osutil
+
+// C32 (assumption, I/O leaf): a stat of the path; writes no program state; a failed probe reports
+// "does not exist"
+//@ func DirExists
+//@   trusted
+//@   assigns nothing
+//@   ensures err != nil ==> !exists && !isDir
+//@   ensures isDir ==> exists
+
+// C32 (assumption, I/O leaf with goroutine/select): runs the command to completion; the only program
+// state it writes is what the command's stdin reader feeds (here: the hasher behind its interface and
+// the byte counter)
+//@ func RunWithContext
+//@   trusted
+//@   assigns Sizer.size
